@@ -13,6 +13,11 @@ comments); forms whose meaning the documentation leaves open are not generated:
   * when both "QActivation" and "QAdaptiveActivation" class entries are present
     they are of the same form and cover the same activation names;
   * inner layers of Bidirectional are not addressed by their own name;
+  * empty entries `{}` are generated for every key form: a BatchNormalization
+    layer is selected by the mere presence of its name or of
+    "QBatchNormalization" (documented form `"QBatchNormalization": {}`); for
+    every other kind an empty entry carries no primary role, so the layer stays
+    as it was, and an empty *name* entry hides the class entry;
   * Conv2DTranspose is never selected (QConv2DTranspose cannot be built in this
     image);
   * QAdaptiveActivation entries are `quantized_relu(<bits>)` /
@@ -197,8 +202,13 @@ def qdicts(desc, prefer_adaptive=False):
       if ld["cls"] == "Bidirectional":
         inner_of.setdefault("Bidirectional", ld["kw"]["layer"]["cls"])
     for cls in classes:
-      mode = pick(["absent", "full", "full", "full", "partial"])
+      mode = pick(["absent", "full", "full", "full", "partial", "empty"])
+      if cls == "BatchNormalization" and mode != "absent" and i(0, 2) == 0:
+        mode = "empty"     # the documented {"QBatchNormalization": {}} form
       if mode == "absent":
+        continue
+      if mode == "empty":
+        qd[Q_OF[cls]] = {}
         continue
       prim, sec = roles_of(cls, inner_of.get(cls))
       if cls == "Bidirectional" and i(0, 1):
@@ -234,14 +244,23 @@ def qdicts(desc, prefer_adaptive=False):
       if i(0, 9) >= 3:
         continue
       if ld["cls"] in Q_OF:
-        mode = pick(["full", "full", "partial"])
+        mode = pick(["full", "full", "partial", "empty"])
+        if ld["cls"] == "BatchNormalization" and i(0, 2) == 0:
+          mode = "empty"   # {"<bn name>": {}}: the marker form autoqkeras emits
+        if mode == "empty":
+          # an empty name entry: selects a BatchNormalization layer (all
+          # quantizers None), hides the class entry for every other kind
+          qd[ld["name"]] = {}
+          continue
         inner = ld["kw"]["layer"]["cls"] if ld["cls"] == "Bidirectional" else None
         prim, sec = roles_of(ld["cls"], inner)
         qd[ld["name"]] = entry(prim, sec, mode)
       elif ld["cls"] == "Activation":
         mk = adaptive_q if prefer_adaptive else act_q
-        form = pick(["string", "map", "map", "map_other"])
-        if form == "string":
+        form = pick(["string", "map", "map", "map_other", "map_empty"])
+        if form == "map_empty":
+          qd[ld["name"]] = {}
+        elif form == "string":
           qd[ld["name"]] = mk()
         elif form == "map":
           qd[ld["name"]] = {act_key(ld): mk()}
@@ -249,8 +268,10 @@ def qdicts(desc, prefer_adaptive=False):
           other = "tanh" if act_key(ld) != "tanh" else "relu"
           qd[ld["name"]] = {other: mk()}
       elif ld["cls"] in ("ReLU", "LeakyReLU"):
-        form = pick(["string", "map", "map", "map_other"])
-        if form == "string":
+        form = pick(["string", "map", "map", "map_other", "map_empty"])
+        if form == "map_empty":
+          qd[ld["name"]] = {}
+        elif form == "string":
           qd[ld["name"]] = act_q()
         elif form == "map":
           qd[ld["name"]] = {act_key(ld): act_q()}
